@@ -16,7 +16,7 @@ use crate::{
 use pyo3::prelude::*;
 use socket2::{Domain, Protocol, Socket, Type};
 use std::net::SocketAddr;
-use std::time::Duration;
+use std::time::{Duration, Instant};
 
 pub(crate) trait SnmpSocket
 where
@@ -127,6 +127,30 @@ where
         T: PyOp<'a, V>,
         V: 'a,
     {
+        // Blocking mode: skipped replies must not extend the timeout,
+        // so the whole call shares the deadline
+        let timeout = self
+            .get_io()
+            .read_timeout()
+            .map_err(|e| SnmpError::SocketError(e.to_string()))?;
+        let deadline = timeout.map(|t| Instant::now() + t);
+        let r = self._recv_loop::<T, V>(iter, deadline);
+        if timeout.is_some() {
+            // Restore timeout for the next call
+            let _ = self.get_io().set_read_timeout(timeout);
+        }
+        r
+    }
+
+    fn _recv_loop<'a, T, V>(
+        &mut self,
+        iter: Option<&mut GetIter>,
+        deadline: Option<Instant>,
+    ) -> PyResult<PyObject>
+    where
+        T: PyOp<'a, V>,
+        V: 'a,
+    {
         // Get buffer from pool
         let mut h = get_buffer_pool().acquire();
         let buf = h.as_mut();
@@ -145,6 +169,16 @@ where
                 }
                 None => {
                     buf.reset();
+                    if let Some(deadline) = deadline {
+                        // Wait only for the rest of the timeout
+                        let left = deadline.saturating_duration_since(Instant::now());
+                        if left.is_zero() {
+                            return Err(SnmpError::WouldBlock.into());
+                        }
+                        self.get_io()
+                            .set_read_timeout(Some(left))
+                            .map_err(|e| SnmpError::SocketError(e.to_string()))?;
+                    }
                     continue;
                 }
             }
